@@ -262,7 +262,13 @@ class Model:
                 z = self.isize()
                 if r.random() < 0.25:
                     z = self.ivs[r.choice(I)]["size"]
-                return {"op": k, "id": r.choice(I), "size": z}
+                i = r.choice(I)
+                stored = [x for x in I if self.ivs[x].get("nbytes")]
+                if stored and r.random() < 0.3:
+                    # cut an interval below the bytes it stores
+                    i = r.choice(stored)
+                    z = r.randint(0, self.ivs[i]["nbytes"] - 1)
+                return {"op": k, "id": i, "size": z}
             if k == "mv_blk" and B and I:
                 return {"op": k, "id": r.choice(B),
                         "iv": r.choice(I + [None]),
@@ -479,7 +485,8 @@ class Model:
             self.secs[op["id"]] = {"mod": op["mod"]}
         elif k == "new_iv":
             self.ivs[op["id"]] = {"addr": op["addr"], "size": op["size"],
-                                  "sec": op["sec"]}
+                                  "sec": op["sec"],
+                                  "nbytes": op.get("nbytes", 0)}
             self.exprs[op["id"]] = {}
         elif k == "new_blk":
             self.blks[op["id"]] = {"kind": op["kind"], "off": op["off"],
@@ -492,6 +499,8 @@ class Model:
             self.ivs[op["id"]]["addr"] = op["addr"]
         elif k == "iv_size":
             self.ivs[op["id"]]["size"] = op["size"]
+            self.ivs[op["id"]]["nbytes"] = min(
+                self.ivs[op["id"]].get("nbytes", 0), op["size"])
         elif k == "mv_blk":
             self.blks[op["id"]]["iv"] = op["iv"]
         elif k == "mv_iv":
